@@ -7,12 +7,14 @@
  *     S <sess> <mid> <code> <tok> <payload> <r>   coap_send() of a CON built through the API;
  *                                         r = the PRNG byte the library will draw for the jitter
  *     T                                   coap_io_prepare_epoll(ctx, now): fire what is due, report wait
+ *     W <k>                               sleep until (time of the last T) + (its reported wait) + k,
+ *                                         if that is in the future (k = 0: punctual driver)
  *     K <sess> <mid>                      peer's empty ACK arrives
  *     P <sess> <mid> <tok>                peer's piggybacked 2.05 ACK arrives
  *     R <sess> <mid>                      peer's RST arrives
  *     N <sess> <mid> <code> <tok>         peer's NON with that mid arrives (not a reply to the CON)
  *     Q                                   dump the send queue (absolute deadlines)
- *   output items (times relative to the start of the case):
+ *   output items, each prefixed with "<index of the event>." (times relative to the start of the case):
  *     s:<ret>  tx:<t>:<sess>:<bytes>  nk:<t>:<sess>:<reason>:<mid>:<has_pdu>
  *     w:<t>:<ms>:<deadline of the queue head or -1>
  *     q:<t>:<deadline>/<sess>/<mid>/<cnt>,...
@@ -35,9 +37,12 @@ static coap_tick_t g_t0;
 static int g_logging;
 static int g_first;
 
+static int g_ev;            /* index of the event being executed; every item is prefixed with it */
+
 static void item_sep(void) {
   if (!g_first) fputc(' ', stdout);
   g_first = 0;
+  printf("%d.", g_ev);
 }
 
 static int sess_index(const coap_session_t *s) {
@@ -46,11 +51,18 @@ static int sess_index(const coap_session_t *s) {
   return -1;
 }
 
+/* datagram bytes: hex up to 48 bytes, else the 4 header bytes in hex + "#len:fnv1a32" */
+static void show_dgram_bytes(const uint8_t *b, size_t n) {
+  if (n > 48)
+    for (size_t i = 0; i < 4; i++) printf("%02x", b[i]);
+  show_bytes(stdout, b, n);
+}
+
 static void on_send_hook(size_t idx) {
   if (!g_logging) return;
   item_sep();
   printf("tx:%llu:%d:", (unsigned long long)(vn_out[idx].t - g_t0), sess_index(vn_out[idx].session));
-  show_bytes(stdout, vn_out[idx].data, vn_out[idx].len);
+  show_dgram_bytes(vn_out[idx].data, vn_out[idx].len);
 }
 
 static void on_nack(coap_session_t *s, const coap_pdu_t *sent, const coap_nack_reason_t reason,
@@ -111,9 +123,18 @@ static void c06(void) {
   }
   g_logging = 1;
   g_first = 1;
+  long long last_tick = -1, last_wait = 0;
+  g_ev = -1;
   while (i < vntok) {
     char c = vtok[i][0];
-    if (c == 'A' && i + 1 < vntok) {
+    g_ev++;
+    if (c == 'W' && i + 1 < vntok) {
+      if (last_tick >= 0) {
+        long long target = last_tick + last_wait + atoll(vtok[i + 1]);
+        if (target > (long long)vn_now) vn_now = (coap_tick_t)target;
+      }
+      i += 2;
+    } else if (c == 'A' && i + 1 < vntok) {
       vn_advance((coap_tick_t)strtoull(vtok[i + 1], NULL, 10));
       i += 2;
     } else if (c == 'S' && i + 6 < vntok) {
@@ -140,6 +161,8 @@ static void c06(void) {
     } else if (c == 'T') {
       unsigned w = vn_prepare(g_ctx);
       long long hd = -1;
+      last_tick = (long long)vn_now;
+      last_wait = (long long)w;
       coap_lock_lock(g_ctx, return);
       if (g_ctx->sendqueue)
         hd = (long long)(g_ctx->sendqueue_basetime + g_ctx->sendqueue->t - g_t0);
